@@ -200,7 +200,7 @@ void *Allocate(size_t size, size_t align, bool nothrow) {
     }
   }
   size_t pad = 0;
-  if (g_cfg.perturb) {
+  if (g_cfg.perturb && g_cfg.pad) {
     pad = static_cast<size_t>(g_rng.Below(17)) * 16;
     if (align > 16) pad = (pad + align - 1) / align * align;
   }
